@@ -1107,3 +1107,104 @@ fn timer_explained(log: &[Rec]) -> BTreeMap<u64, bool> {
     }
     out
 }
+
+// ---------------------------------------------------------------------------------------------
+// C13 (state machine part): every emitted event is taken before the code that follows the
+// emission runs; progress values are delivered in order before the install's outcome is used.
+
+pub fn mon_c13_flow(log: &[Rec], m: &mut Mon) {
+    #[derive(Clone, Debug)]
+    enum Need {
+        Checking,
+        Installing,
+        Schedule(TimingSnap),
+        WaitingForReboot,
+        Response,
+    }
+    let mut need: Option<(Need, u64)> = None;
+    let mut sent: Vec<u32> = vec![];
+    let mut taken_progress: Vec<u32> = vec![];
+    let mut install_open = false;
+    let mut install_done = false;
+    for r in log {
+        // 1. does this entry satisfy / violate the pending obligation?
+        if let Some((n, since)) = need.clone() {
+            let satisfied = match (&n, &r.ev) {
+                (Need::Checking, Ev::Taken(EvSnap::State(StateSnap::Checking(_)))) => true,
+                (Need::Installing, Ev::Taken(EvSnap::State(StateSnap::Installing))) => true,
+                (Need::Schedule(a), Ev::Taken(EvSnap::Schedule(s))) => s.next == Some(*a),
+                (Need::WaitingForReboot, Ev::Taken(EvSnap::State(StateSnap::WaitingForReboot))) => true,
+                (Need::Response, Ev::Taken(EvSnap::Response(_))) => true,
+                _ => false,
+            };
+            if satisfied {
+                m.hit("c13-event-taken-before-following-call");
+                need = None;
+            } else {
+                let forbidden = match (&n, &r.ev) {
+                    (Need::Checking, Ev::HttpReq { .. } | Ev::Metric(MetricSnap::CheckInterval { .. }) | Ev::PlanCreate { .. }) => true,
+                    (Need::Installing, Ev::HttpReq { .. } | Ev::InstallStart { .. }) => true,
+                    (Need::Schedule(_), Ev::TimerArm { .. }) => true,
+                    (Need::WaitingForReboot, Ev::PolicyRebootAllowed { .. } | Ev::Reboot) => true,
+                    (Need::Response, Ev::PlanCreate { .. } | Ev::Taken(EvSnap::State(StateSnap::NoUpdate))) => true,
+                    _ => false,
+                };
+                if forbidden {
+                    m.judge("c13-event-taken-before-following-call", false, &format!("{:?}", n).split('(').next().unwrap_or("").to_string(), || {
+                        format!("after seq {} the observer had to take {:?} before the flow continued, but at seq {} the machine already did {:?}", since, n, r.seq, format!("{:?}", r.ev).chars().take(80).collect::<String>())
+                    });
+                    need = None;
+                }
+                if matches!(r.ev, Ev::Crash { .. } | Ev::Restart | Ev::StreamEnd) {
+                    need = None;
+                }
+            }
+        }
+        // 2. new obligations
+        match &r.ev {
+            Ev::PolicyCheckAllowed { answer, .. } if answer.params().is_some() => need = Some((Need::Checking, r.seq)),
+            Ev::PolicyCanStart { answer: UpdDec::Ok, .. } => need = Some((Need::Installing, r.seq)),
+            Ev::PolicyNext { answer, .. } => need = Some((Need::Schedule(*answer), r.seq)),
+            Ev::PolicyRebootNeeded { answer: true, .. } => need = Some((Need::WaitingForReboot, r.seq)),
+            Ev::HttpResp { delivered: Delivered::Reply { authentic: true, status, doc: Some(_), .. }, idx } if (200..300).contains(status) => {
+                // only update-check exchanges announce the server response
+                let is_uc = log.iter().any(|x| matches!(&x.ev, Ev::HttpReq { idx: j, kind: ReqKind::UpdateCheck, .. } if j == idx));
+                if is_uc {
+                    need = Some((Need::Response, r.seq));
+                }
+            }
+            Ev::InstallStart { .. } => {
+                sent.clear();
+                taken_progress.clear();
+                install_open = true;
+                install_done = false;
+            }
+            Ev::ProgressSent(p) => sent.push(*p),
+            Ev::ProgressReturned(_) => {
+                // the installer may be at most one value ahead of the observer
+                let returned = log.iter().filter(|x| x.seq <= r.seq && x.seq > 0 && matches!(x.ev, Ev::ProgressReturned(_))).count();
+                let _ = returned;
+            }
+            Ev::Taken(EvSnap::Progress(p)) => {
+                taken_progress.push(*p);
+                let k = taken_progress.len();
+                let ok = install_open && sent.len() >= k && sent[k - 1] == *p;
+                m.judge("c13-progress-in-order", ok, "", || format!("progress event #{} = {} at seq {}; installer sent {:?}", k, f32::from_bits(*p), r.seq, sent.iter().map(|x| f32::from_bits(*x)).collect::<Vec<_>>()));
+            }
+            Ev::InstallDone { .. } => install_done = true,
+            Ev::HttpReq { .. } | Ev::Taken(EvSnap::State(_)) | Ev::Taken(EvSnap::InstallerError(_)) | Ev::PolicyRebootNeeded { .. } | Ev::Taken(EvSnap::Result(_)) => {
+                if install_open && install_done {
+                    // first boundary call / announcement after the install: every progress value delivered
+                    m.judge("c13-all-progress-before-outcome", taken_progress == sent, "", || {
+                        format!("at seq {} the install outcome is used but progress delivered {:?} != sent {:?}", r.seq, taken_progress.iter().map(|x| f32::from_bits(*x)).collect::<Vec<_>>(), sent.iter().map(|x| f32::from_bits(*x)).collect::<Vec<_>>())
+                    });
+                    install_open = false;
+                }
+            }
+            Ev::Crash { .. } | Ev::Restart => {
+                install_open = false;
+            }
+            _ => {}
+        }
+    }
+}
